@@ -8,6 +8,8 @@ exec 9>$ISO/.lock; flock 9
 mkdir -p $ISO/export && find $ISO/export -mindepth 1 -delete && git -C /verif archive HEAD | tar -x -C $ISO/export
 rsync -rlpc --delete --exclude .build --exclude "*.vo" --exclude "*.vos" --exclude "*.vok" --exclude "*.glob" --exclude "*.aux" --exclude ".lia.cache" --exclude ".nia.cache" --exclude "coq/Makefile*" --exclude "coq/.Makefile.d" --exclude "evidence" $ISO/export/ $ISO/verif/
 sed -i "s|path = \"/repo\"|path = \"$ISO/repo\"|" $ISO/verif/harness/Cargo.toml
+# the translators read the source of the copy too
+sed -i "s|\"/repo/|\"$ISO/repo/|g" $ISO/verif/tools/rs2v_targets.json
 for spec in "$@"; do
   name=${spec%%:*}
   prop=$(python3 -c "import json;print(json.load(open('/verif/seeded/$name/meta.json'))['property'])")
